@@ -25,6 +25,7 @@ func runC15(c *Ctx) {
 	c15R3(c, ms)
 	indexResolution(c, "R4")
 	equalityAgreement(c, "R6")
+	c.shared("R7", "C02/R4", "a method invoked on $ acts on the array inside the document: for an array root the pattern rules see each element's own cell, not a copy of its value (a copy carries a private slice header)", keyHas("array-root-per-element"), c02R4)
 	c.shared("R5", "C09/R3", "push stores a copy of its argument made by copyValue: the stored element is a value of the same kind in a cell of its own (a null that shares the caller's cell changes when the caller's variable does)", keyHas("copy Value", "copy-on-insert ExprCall.Args"), c09R3)
 }
 
